@@ -148,13 +148,13 @@ class Delivery(core.Scenario):
             if r.done and r.status == 200:
                 for i, (t, d) in enumerate(peer.decode_body(r.text())):
                     if t == 4:
-                        obs.append((r.step_done, i, tag_of(d), 'polling'))
+                        obs.append((r.step_done, i, tag_of(d), 'polling', r.step_start))
         s = self.ws.get(sid)
         if s is not None:
             for i, f in enumerate(s.frames):
                 t, d = peer.decode_frame(f[2])
                 if t == 4:
-                    obs.append((f[1], i, tag_of(d), 'websocket'))
+                    obs.append((f[1], i, tag_of(d), 'websocket', f[1]))
         obs.sort(key=lambda x: (x[0], x[1]))
         return obs
 
@@ -183,8 +183,13 @@ class Delivery(core.Scenario):
                     ti, ci, si = mine[i]
                     tj, cj, sj = mine[j]
                     if ci.done and ti in pos and tj in pos and pos[ti] > pos[tj]:
-                        # was call i complete before call j was issued?
-                        if getattr(ci, 'step_done', None) is not None and ci.step_done <= sj:
+                        # was call i complete before call j was issued?  and did the carrier of the later
+                        # message complete before the carrier of the earlier one even started (overlapping
+                        # responses on different connections have no defined arrival order)?
+                        oi, oj = obs[pos[ti]], obs[pos[tj]]
+                        same_carrier = oi[3] == oj[3] == 'websocket' or (oi[0], oi[4]) == (oj[0], oj[4])
+                        if getattr(ci, 'step_done', None) is not None and ci.step_done <= sj and \
+                                (same_carrier or oj[0] < oi[4]):
                             self.flag('reordered', 'client %s saw %r, sent %r' % (sid[-4:], tags, [m[0] for m in mine]), trigger=variant)
             # completeness
             closed_first = sid in self.closed_by_client or sid not in w.live_sids()
@@ -199,8 +204,8 @@ class Delivery(core.Scenario):
             for r in self.polls[self.A]:
                 if r.step_start <= s.step_accept or not r.done:
                     continue
-                if self.fail_step is not None and r.step_start >= self.fail_step:
-                    continue
+                if self.fail_step is not None and r.step_done >= self.fail_step:
+                    continue      # served (at least partly) after the failing event was delivered
                 if variant == 'upgrade_ok' or variant == 'upgrade_no_pending_poll' or self.fail_step is not None:
                     if r.status == 200:
                         kinds = [t for t, d in peer.decode_body(r.text())]
